@@ -93,7 +93,11 @@ static void complete_some(size_t n) {
 static void count_cb() {
   if (g_cancel_cb >= 0 && !g_cancel_sent && g_cb++ == g_cancel_cb) { g_cancel_sent = true; ev("cancel-sent cb"); g_engine->cancelBuild(); }
 }
+static const bool g_marks = getenv("VERIF_ITER_MARKS") != nullptr;     // optional iteration markers (default traces unchanged)
 static void hook(int point, const void* data) {
+  if (g_marks && point == 0) ev("iter %ld", g_iter);
+  if (g_marks && point == 1) ev("wait");
+  if (g_marks && point == 2) ev("drain");
   if (point == 0) {
     if (g_cancel_iter >= 0 && !g_cancel_sent && g_iter == g_cancel_iter) { g_cancel_sent = true; ev("cancel-sent iter"); g_engine->cancelBuild(); }
     g_iter++;
